@@ -19,6 +19,7 @@ import (
 //@ func LastWriteWins
 //@   requires validEntry(a) && validEntry(b)
 //@   pure
+//@   ensures [result-can-be-negated] result0 > 0 - 9223372036854775807
 //@   ensures [lww-is-lexicographic] err == nil && (etime(a) != etime(b) || ecid(a) != ecid(b) ==> sign(result0) == cmpKey(a, b)) && (etime(a) == etime(b) && ecid(a) == ecid(b) ==> result0 == 1)
 
 //@ func FirstWriteWins
